@@ -4,6 +4,7 @@ import (
 	"fmt"
 	"go/ast"
 	"go/token"
+	"go/types"
 	"math/big"
 	"sort"
 	"strings"
@@ -655,6 +656,68 @@ func checkC17(p *Prog, r *Report) {
 		sort.Strings(ws)
 		r.Check(len(ws) == 0, name+" is a pure function of the candidate's fields", p.Pos(f.Body.Pos()), "writes nothing", "writes "+strings.Join(ws, ", ")+": a remembered priority goes stale when the role, the override or the resolved network type changes, and the two agents stop ordering pairs identically (a memo needs a reset at every such change; this rule cannot see one)")
 	}
+	// ---- R17.7 the priority crosses the wire unchanged ----------------------------------------------------
+	r.Rule("R17.7", "The PRIORITY attribute of every connectivity check is the sending local candidate's Priority() converted and nothing else, and a peer-reflexive remote candidate takes the attribute's value converted and nothing else (no clamp, scale or default): both agents compute a mirrored pair's priority from the same two numbers.", 5)
+	nSend := 0
+	for _, f := range p.AllFuncs {
+		if f.Body == nil {
+			continue
+		}
+		walkBody(f, func(x ast.Node) bool {
+			c, ok := x.(*ast.CallExpr)
+			if !ok || p.ConvTarget(c) != "ice.PriorityAttr" || len(c.Args) != 1 || f.Name == "PriorityAttr.GetFrom" {
+				return true
+			}
+			nSend++
+			inner, isCall := unparen(c.Args[0]).(*ast.CallExpr)
+			okV := isCall && len(inner.Args) == 0 && strings.HasSuffix(p.CalleeName(inner), ".Priority") && strings.HasPrefix(p.CalleeName(inner), "ice.Candidate")
+			r.Check(okV, "PRIORITY attribute built in "+f.Name, p.Pos(c.Pos()), "PriorityAttr(<candidate>.Priority())", "the PRIORITY attribute is "+stripVarLines(p.Canon(c.Args[0]))+", not the local candidate's priority verbatim: the peer records a different priority for the candidate it discovers")
+			return true
+		})
+	}
+	if nSend == 0 {
+		r.Fail("PRIORITY attribute construction", "", "no PriorityAttr(...) conversion found (rule instance lost)")
+	}
+	if f := p.Fn("Agent.handleInboundRequest"); r.Anchor("Agent.handleInboundRequest", f != nil) {
+		n := 0
+		for _, nd := range p.StoresTo(f, "CandidatePeerReflexiveConfig.Priority") {
+			var rhs ast.Expr
+			switch y := nd.(type) {
+			case *ast.AssignStmt:
+				for i, l := range y.Lhs {
+					if p.IsField(l, "CandidatePeerReflexiveConfig.Priority") && len(y.Lhs) == len(y.Rhs) {
+						rhs = y.Rhs[i]
+					}
+				}
+			case *ast.KeyValueExpr:
+				rhs = y.Value
+			}
+			if rhs == nil {
+				continue
+			}
+			n++
+			okV := false
+			if cv, isC := unparen(rhs).(*ast.CallExpr); isC && p.ConvTarget(cv) == "uint32" && len(cv.Args) == 1 {
+				if id, isI := unparen(cv.Args[0]).(*ast.Ident); isI && typeStr(p.TypeOf(id)) == "ice.PriorityAttr" {
+					okV = true
+				}
+			}
+			r.Check(okV, "peer-reflexive priority from the request", p.Pos(nd.Pos()), "uint32(<PRIORITY attribute>)", "the peer-reflexive candidate's priority is "+stripVarLines(p.Canon(rhs))+", not the request's PRIORITY attribute verbatim: the two agents compute different priorities for the mirrored pair and order their checklists differently")
+		}
+		if n == 0 {
+			r.Fail("peer-reflexive priority from the request", p.Pos(f.Body.Pos()), "the peer-reflexive configuration's Priority is not set from the request")
+		}
+	}
+	if f := p.Fn("NewCandidatePeerReflexive"); r.Anchor("NewCandidatePeerReflexive", f != nil) {
+		okV := false
+		walkBody(f, func(x ast.Node) bool {
+			if kv, ok := x.(*ast.KeyValueExpr); ok && p.keyIsField(kv.Key, "candidateBase.priorityOverride") && p.IsField(kv.Value, "CandidatePeerReflexiveConfig.Priority") {
+				okV = true
+			}
+			return true
+		})
+		r.Check(okV, "NewCandidatePeerReflexive keeps the configured priority", p.Pos(f.Body.Pos()), "priorityOverride: config.Priority", "the constructor does not store the configured priority verbatim as the override")
+	}
 }
 
 func identName(e ast.Expr) string {
@@ -670,4 +733,14 @@ func reverseStrings(s []string) []string {
 		out[len(s)-1-i] = x
 	}
 	return out
+}
+
+// keyIsField: the key of a struct-literal element names the given field.
+func (p *Prog) keyIsField(k ast.Expr, name string) bool {
+	id, ok := k.(*ast.Ident)
+	if !ok {
+		return false
+	}
+	v, ok := p.ObjOf(id).(*types.Var)
+	return ok && v.IsField() && p.FieldName(v) == name
 }
